@@ -48,6 +48,24 @@ func HarnessC10(fam, nV, convCode, form, sv int) {
 	log2 := w.Log
 	vnCover("C10.both-returned")
 	vnAssert((cerr == nil) == (r.Err() == nil), "C10.convert-succeeds-exactly-when-the-identity-call-does")
+	// "it obeys C01-C05": a target type derivable on a well-behaved converter set converts
+	single := true
+	for _, c := range w.Convs {
+		if len(c.In) > 1 {
+			single = false
+		}
+	}
+	der, fired := hDerivable(w, hPromised)
+	allFire := true
+	for _, f := range fired {
+		if !f {
+			allFire = false
+		}
+	}
+	if der[0] && (single || (hAcyclic(w, hCompat) && allFire)) {
+		vnAssert(cerr == nil, "C10.derivable-target-type-converts")
+		vnCover("C10.completeness-checked")
+	}
 	if cerr != nil {
 		vnAssert(cv == nil, "C10.error-means-nil-value")
 		vnCover("C10.failure-checked")
